@@ -4,6 +4,7 @@
 From Coq Require Import List Arith Lia Bool PeanoNat Permutation Sorted.
 Import ListNotations.
 From SP Require Import Report.
+From SP Require Import Skel Gen ExpectedCones.
 From SP Require Result TaskFS TInv Glue Cor TaskTop Bash.
 
 (* flattening lists exactly the IDs that occur anywhere in the tree -- whatever the depth, the fan-in, or the sharing of
@@ -77,6 +78,16 @@ Definition ex_tree : rec :=
 Theorem C20_example : map rid (report ex_tree) = [2; 3; 1; 5; 6; 9].
 Proof. vm_compute. reflexivity. Qed.
 
+(* T1, call cones: every function of scipipe that the functions this property's models stand for can reach (calls and
+   function values, interface calls resolved to every implementation) is one the models were compared with -- a helper that
+   is new to the cone, or a new call of an old one, changes a list (regenerated from /repo on every run; ExpectedCones.v
+   holds the accepted ones) *)
+Theorem C20_cone_conforms :
+  strs_eqb cone_FileIP_AuditInfo exp_cone_FileIP_AuditInfo
+  && strs_eqb cone_NewFileIP exp_cone_NewFileIP
+  && strs_eqb cone_UnmarshalAuditInfoJSONFile exp_cone_UnmarshalAuditInfoJSONFile = true.
+Proof. vm_compute. reflexivity. Qed.
+
 Print Assumptions C20_flatten.
 Print Assumptions C20_flatten_once.
 Print Assumptions C20_report_complete.
@@ -87,3 +98,4 @@ Print Assumptions C20_bash_reproduces.
 Print Assumptions C20_bash_reproduces_run.
 Print Assumptions C20_bash_example.
 Print Assumptions C20_example.
+Print Assumptions C20_cone_conforms.
